@@ -179,7 +179,10 @@ fn not(value: Value) -> Result<Value> {
 
 fn neg(value: Value) -> Result<Value> {
     match value {
-        Value::Int(value) => Ok(Value::Int(-value)),
+        Value::Int(value) => value
+            .checked_neg()
+            .map(Value::Int)
+            .ok_or_else(|| Error::value_out_of_bounds(Value::Int(value), "neg")),
         Value::Float(value) => Ok(Value::Float(-value)),
         Value::Decimal(value) => Ok(Value::Decimal(-value)),
 
@@ -300,9 +303,15 @@ fn duration(value: Value) -> Result<Value> {
 
 fn mult(left: Value, right: Value) -> Result<Value> {
     match (left, right) {
-        (Value::Int(left), Value::Int(right)) => Ok(Value::Int(left * right)),
+        (Value::Int(left), Value::Int(right)) => left
+            .checked_mul(right)
+            .map(Value::Int)
+            .ok_or_else(|| Error::value_out_of_bounds(Value::Int(left), "mult")),
         (Value::Float(left), Value::Float(right)) => Ok(Value::Float(left * right)),
-        (Value::Decimal(left), Value::Decimal(right)) => Ok(Value::Decimal(left * right)),
+        (Value::Decimal(left), Value::Decimal(right)) => left
+            .checked_mul(right)
+            .map(Value::Decimal)
+            .ok_or_else(|| Error::value_out_of_bounds(Value::Decimal(left), "mult")),
 
         (Value::None, _) | (_, Value::None) => Ok(Value::None),
         _ => Err(Error::InvalidType),
@@ -343,9 +352,15 @@ fn rem(left: Value, right: Value) -> Result<Value> {
 
 fn add(left: Value, right: Value) -> Result<Value> {
     match (left, right) {
-        (Value::Int(left), Value::Int(right)) => Ok(Value::Int(left + right)),
+        (Value::Int(left), Value::Int(right)) => left
+            .checked_add(right)
+            .map(Value::Int)
+            .ok_or_else(|| Error::value_out_of_bounds(Value::Int(left), "add")),
         (Value::Float(left), Value::Float(right)) => Ok(Value::Float(left + right)),
-        (Value::Decimal(left), Value::Decimal(right)) => Ok(Value::Decimal(left + right)),
+        (Value::Decimal(left), Value::Decimal(right)) => left
+            .checked_add(right)
+            .map(Value::Decimal)
+            .ok_or_else(|| Error::value_out_of_bounds(Value::Decimal(left), "add")),
         (Value::DateTime(left), Value::Duration(right)) => Ok(Value::DateTime(left + right)),
 
         (Value::None, _) | (_, Value::None) => Ok(Value::None),
@@ -355,9 +370,15 @@ fn add(left: Value, right: Value) -> Result<Value> {
 
 fn sub(left: Value, right: Value) -> Result<Value> {
     match (left, right) {
-        (Value::Int(left), Value::Int(right)) => Ok(Value::Int(left - right)),
+        (Value::Int(left), Value::Int(right)) => left
+            .checked_sub(right)
+            .map(Value::Int)
+            .ok_or_else(|| Error::value_out_of_bounds(Value::Int(left), "sub")),
         (Value::Float(left), Value::Float(right)) => Ok(Value::Float(left - right)),
-        (Value::Decimal(left), Value::Decimal(right)) => Ok(Value::Decimal(left - right)),
+        (Value::Decimal(left), Value::Decimal(right)) => left
+            .checked_sub(right)
+            .map(Value::Decimal)
+            .ok_or_else(|| Error::value_out_of_bounds(Value::Decimal(left), "sub")),
         (Value::DateTime(left), Value::DateTime(right)) => Ok(Value::Duration(left - right)),
         (Value::DateTime(left), Value::Duration(right)) => Ok(Value::DateTime(left - right)),
         (Value::Duration(left), Value::Duration(right)) => Ok(Value::Duration(left - right)),
